@@ -620,6 +620,14 @@ func c05Scripts(vals []interface{}, maxVals int) [][]h.Ev {
 }
 
 func c05ConcCase(op msOp, words [][]h.Ev, bound int) fw.Case {
+	return c05ConcCaseOpt(op, words, bound, false)
+}
+
+// c05ConcCaseOpt: with racing set, the producers do not wait for Subscribe to finish: each one starts as
+// soon as its own source has been subscribed (or the Subscribe call has gone quiet), so sources terminate
+// while the operator is still subscribing the others; at the end the output is unsubscribed and every
+// source must have been released.
+func c05ConcCaseOpt(op msOp, words [][]h.Ev, bound int, racing bool) fw.Case {
 	var names []string
 	for _, w := range words {
 		names = append(names, "["+h.Word(w)+"]")
@@ -629,35 +637,63 @@ func c05ConcCase(op msOp, words [][]h.Ev, bound int) fw.Case {
 	for _, as := range shuffles(words) {
 		allowed[modelOutcome(runModel(op, as))] = true
 	}
-	return fw.Case{Name: strings.Join(names, " "), Bound: bound, Sample: true, Make: func() fw.Instance {
+	nm := strings.Join(names, " ")
+	if racing {
+		nm = "producers-racing-subscribe: " + nm
+	}
+	return fw.Case{Name: nm, Bound: bound, Sample: true, Make: func() fw.Instance {
 		set := &recSet{}
 		out := h.NewRec("out")
 		set.add(out)
 		var escaped string
+		srcs := make([]*h.Src, op.k)
+		var subscription ro.Subscription
+		released := true
+		var subGate gate
 		body := func() {
 			obs := make([]ro.Observable[int], op.k)
 			push := make([]*h.Push[int], op.k)
 			for i := range obs {
-				obs[i], push[i] = h.Pushed[int](h.NewSrc(fmt.Sprintf("%c", 'a'+i)), h.Unsafe)
+				srcs[i] = h.NewSrc(fmt.Sprintf("%c", 'a'+i))
+				obs[i], push[i] = h.Pushed[int](srcs[i], h.Unsafe)
 			}
 			curLate = nil
 			vrt.GoNamed("subscribe", func() {
-				guard(&escaped, "Subscribe", func() { op.build(obs, set, out) })
+				guard(&escaped, "Subscribe", func() { subGate.setSub(op.build(obs, set, out)) })
 			})
-			vrt.Settle()
+			if !racing {
+				vrt.Settle()
+			}
 			for i := range words {
 				i := i
 				if len(words[i]) == 0 {
 					continue
 				}
 				vrt.GoNamed(fmt.Sprintf("producer-%c", 'a'+i), func() {
+					if racing {
+						vrt.Point(vrt.OpUser, 0, func() bool { n, _, _, _ := srcs[i].Get(); return n > 0 || subGate.isOver() })
+					}
 					guard(&escaped, "Next", func() { play(push[i], words[i]) })
 				})
+			}
+			if racing {
+				vrt.Settle()
+				subGate.over() // sources the operator has not subscribed by now lose their notifications, as in the other variant
+				vrt.Settle()
+				if subscription = subGate.getSub(); subscription != nil {
+					guard(&escaped, "Unsubscribe", func() { subscription.Unsubscribe() })
+					vrt.Settle()
+					for _, sc := range srcs {
+						if _, _, live, _ := sc.Get(); live != 0 {
+							released = false
+						}
+					}
+				}
 			}
 		}
 		return fw.Instance{Body: body, Outcome: func() string { return implOutcome(set) }, Recorders: set.all, Nontrivial: func(r *vrt.Result) bool { return r.Switches > 2 }, Check: func(r *vrt.Result) []fw.Violation {
 			var res []fw.Violation
-			where := fmt.Sprintf("%s with concurrent sources %s", op.name, strings.Join(names, " "))
+			where := fmt.Sprintf("%s with concurrent sources %s", op.name, nm)
 			if escaped != "" {
 				res = append(res, fw.V("concurrent/"+op.name+"/panic/escaped", where+": "+escaped))
 			}
@@ -676,10 +712,36 @@ func c05ConcCase(op msOp, words [][]h.Ev, bound int) fw.Case {
 				}
 				res = append(res, fw.V("concurrent/"+op.name+"/output-for-no-arrival-order/"+concClass(got, allowed), fmt.Sprintf("%s: delivered [%s], which the definition assigns to no arrival order; allowed: %s", where, got, strings.Join(al, " "))))
 			}
+			if !released {
+				var st []string
+				for _, sc := range srcs {
+					n, t, live, _ := sc.Get()
+					st = append(st, fmt.Sprintf("%s: subscribed %d, released %d, live %d", sc.Name, n, t, live))
+				}
+				res = append(res, fw.V("concurrent/"+op.name+"/source-not-released-after-unsubscribe/live", fmt.Sprintf("%s: the output was unsubscribed after everything had quiesced, yet a source is still subscribed (%s)", where, strings.Join(st, "; "))))
+			}
 			return res
 		}}
 	}}
 }
+
+// gate carries the Subscription out of the subscribe thread and the "Subscribe has gone quiet" flag.
+type gate struct {
+	sub  ro.Subscription
+	done bool
+}
+
+//go:norace
+func (g *gate) setSub(s ro.Subscription) { g.sub = s }
+
+//go:norace
+func (g *gate) getSub() ro.Subscription { return g.sub }
+
+//go:norace
+func (g *gate) over() { g.done = true }
+
+//go:norace
+func (g *gate) isOver() bool { return g.done }
 
 func normOutcome(s string) string { return s }
 
@@ -843,6 +905,17 @@ func init() {
 				scns = append(scns, fw.Scenario{ID: fmt.Sprintf("C05/conc/%s/%d", op.name, ti), Group: op.name, Run: func(c *fw.Ctx) {
 					for _, words := range chunk {
 						c.Explore(c05ConcCase(op, words, b))
+						// racing variant: short tuples in which some source terminates, one deviation less
+						total, term := 0, false
+						for _, w := range words {
+							total += len(w)
+							if len(w) > 0 && w[len(w)-1].K != h.N {
+								term = true
+							}
+						}
+						if total <= 3 && term && b > 1 {
+							c.Explore(c05ConcCaseOpt(op, words, b-1, true))
+						}
 					}
 				}})
 			}
